@@ -258,8 +258,8 @@ def gen_sequences(rng, ops, thorough):
         for gc in (1, 0):
             earlier = [t for t in times if t <= T]
             seqs.append([[T, gc], [rng.choice(earlier) if rng.random() < 0.5 else T, gc]])
-    if thorough:
-        for _ in range(4):
+    for _ in range(4 if thorough else 1):
+        if True:
             k = rng.choice([2, 3])
             ts = sorted(rng.sample(times, min(k, len(times))))
             seqs.append([[t, rng.choice([0, 1])] for t in ts])
@@ -415,7 +415,9 @@ def observe(st, oids, bounds, view=None):
     for o in oids:
         po = Z['p64'](o)
         try:
-            obs['hist'][o] = [(model_time(d['tid']), d['size']) for d in st.history(po, 100000)]
+            # ('size' is the stored length — 0 for a record stored as a back pointer — a representation
+            #  detail that legitimately changes when a pack writes the data in full: tids only)
+            obs['hist'][o] = [(model_time(d['tid']),) for d in st.history(po, 100000)]
         except Exception as e:
             obs['hist'][o] = errkind(e)
         for b in bounds:
@@ -623,6 +625,24 @@ def judge_pack(before, after, T, gc, kind, outcome, truth, bounds, counts):
             bad.append((load_sig(o),
                         'loadSerial(oid %d, tid %d) after pack(T=%d, gc=%d) on %s: %r, was %r'
                         % (o, m, T, gc, kind, short(y if y is not None else 'K'), short(x))))
+    # history(oid): the revisions after T of every object reachable now
+    for o in sorted(H.live_reach(last)):
+        x, y = before['hist'].get(o), after['hist'].get(o)
+        fx = [e for e in x if e[0] > T] if isinstance(x, list) else x
+        fy = [e for e in y if e[0] > T] if isinstance(y, list) else y
+        if fx != fy and not removable_object(o):
+            bad.append((load_sig(o), 'history(oid %d) after pack(T=%d, gc=%d) on %s lists %r after T, was %r'
+                        % (o, T, gc, kind, fy, fx)))
+    # undoLog: the transactions after T are still offered
+    x, y = before.get('undolog'), after.get('undolog')
+    if isinstance(x, list) or isinstance(y, list):
+        fx = [e for e in x if e[0] > T] if isinstance(x, list) else x
+        fy = [e for e in y if e[0] > T] if isinstance(y, list) else y
+        if fx != fy:
+            bad.append(('C07:later-transaction-changed',
+                        'undoLog after pack(T=%d, gc=%d) on %s offers %r after T, offered %r'
+                        % (T, gc, kind, [e[0] for e in fy] if isinstance(fy, list) else fy,
+                           [e[0] for e in fx] if isinstance(fx, list) else fx)))
     # sentence 2b: every transaction after T still listed and iterable, identical records
     if post_listing(before['listing'], T) != post_listing(after['listing'], T):
         pb = {(x[0], o): d for x in post_listing(before['listing'], T) for o, d in x[5]}
@@ -658,23 +678,26 @@ def judge_pack(before, after, T, gc, kind, outcome, truth, bounds, counts):
         bad.append((SIG_REFUSED_BACKPTR,
                     'pack(T=%d, gc=%d) on %s failed with %s: a record after T points back to a revision the '
                     'pack removes' % (T, gc, kind, outcome[4:])))
-    if outcome == 'err:TypeError' and not (kind == 'demofs' and gc):
+    if outcome == 'err:TypeError' and not (kind in DEMOFS and gc):
         # only DemoStorage-with-a-base refuses gc with TypeError; elsewhere it is a crash
         # (PackCopier._data_find: len(None) when the first of two records of the oid carries data)
         bad.append((SIG_FIRST_DUP if firstdup else 'C07:pack-crashed',
                     'pack(T=%d, gc=%d) on %s crashed with TypeError' % (T, gc, kind)))
     if outcome.startswith('err:Other('):
-        bad.append((SIG_DEMO_ATTR if (kind == 'demofs' and 'AttributeError' in outcome) else 'C07:pack-crashed',
+        bad.append((SIG_DEMO_ATTR if (kind in DEMOFS and 'AttributeError' in outcome) else 'C07:pack-crashed',
                     'pack(T=%d, gc=%d) on %s crashed with %s' % (T, gc, kind, outcome[10:-1])))
     # a refused pack (exception) must leave everything as it was
     if outcome.startswith('err:'):
-        mapping_gc_keyerror = (kind in MAPLIKE and outcome == 'err:KeyError')
+        # (a MappingStorage whose gc sweep fails — dangling reference, injected fault — has done step 1)
+        mapping_gc_keyerror = (kind in MAPLIKE and outcome in ('err:KeyError', 'err:Injected'))
         if not mapping_gc_keyerror and (
                 full_listing(before['listing']) != full_listing(after['listing'])
-                or before['loads'] != after['loads'] or before['cur'] != after['cur']):
+                or before['loads'] != after['loads'] or before['cur'] != after['cur']
+                or before['ser'] != after['ser'] or before['hist'] != after['hist']
+                or before.get('undolog') != after.get('undolog')):
             bad.append(('C07:failed-pack-changed-storage',
                         'pack(T=%d, gc=%d) on %s raised %s and changed the storage' % (T, gc, kind, outcome)))
-        if mapping_gc_keyerror and bad:
+        if mapping_gc_keyerror and bad and outcome == 'err:KeyError':
             bad = [(SIG_MAP_KEYERROR, w) for _, w in bad]
     return bad
 
@@ -868,6 +891,7 @@ def run_case(case, tmp, want_model=True):
             bpath = os.path.join(d, 'Buddy.fs')
             buddy = open_storage('fs' if kind in FSLIKE else 'map', bpath)
             btruth = Truth()
+            counts['two-storages-in-process'] = 1
             apply_ops(buddy, 'fs' if kind in FSLIKE else 'map', ops[:max(1, half)], btruth)
         maxT = None
         later_changed = False
@@ -1361,16 +1385,39 @@ def undo_series(st, kind, path, first, T, gc, oids, truth, counts, serial):
 
 
 # ------------------------------------------------------------------------------------------ driver
+class CaseTimeout(Exception):
+    pass
+
+
 def _worker(args):
+    """one case; a step that blocks or an exception escaping a harness step becomes a verdict with the
+    failing input instead of a hang / a crash of the whole run"""
+    import signal
+    import traceback
     case, tmp = args
+
+    def on_alarm(signum, frame):
+        raise CaseTimeout()
     try:
-        if case.get('cc'):
-            return run_cc(case, tmp)
-        if case.get('blob'):
-            return run_blob(case, tmp)
-        return run_case(case, tmp)
+        signal.signal(signal.SIGALRM, on_alarm)
+        signal.alarm(180)
+    except Exception:
+        pass
+    try:
+        return runner_of(case)(case, tmp)
     except InfraError as e:
         return dict(infra=str(e))
+    except CaseTimeout:
+        return dict(bad=[('C07:case-timeout', 'a step of the case did not return within 180 s')], counts={},
+                    lines=[], expect=[], nontrivial=False, sample=None, log=[])
+    except Exception:
+        return dict(bad=[('C07:harness-step-raised', traceback.format_exc()[-1500:])], counts={},
+                    lines=[], expect=[], nontrivial=False, sample=None, log=[])
+    finally:
+        try:
+            signal.alarm(0)
+        except Exception:
+            pass
 
 
 def compare_model(ck, case, res, mo):
@@ -1452,14 +1499,15 @@ def main(argv=None):
         cases = [j['case']['case'] if 'case' in j['case'] else j['case']]
     else:
         cases += load_corpus()
-        nh = 80 if not ck.thorough else 1000
+        nh = 64 if not ck.thorough else 800
         for i in range(nh):
             ops = gen_history(ck.rng, ck.rng.choice([3, 4, 5, 6, 7, 8, 9])) if i % 40 != 7 else []
             seqs = gen_sequences(ck.rng, ops, ck.thorough)
-            kinds = ['fs', 'map'] + (['demo', 'demofs'] if i % 4 == 0 else [])
+            kinds = ['fs', 'map'] + (['demo', 'demofs'] if i % 4 == 0 else []) + \
+                (['hexfs', 'mvccmap'] if i % 4 == 1 else []) + (['demobase', 'hexmap'] if i % 4 == 2 else [])
             for kind in kinds:
                 for seq in seqs:
-                    if kind.startswith('demo') and ck.rng.random() < 0.6:
+                    if kind not in ('fs', 'map') and ck.rng.random() < 0.6:
                         continue
                     x = ck.rng.random()
                     tz = 'JST-9' if x < 0.2 else ('XXX-5:30' if x < 0.3 else ('PST8' if x < 0.4 else None))
@@ -1469,12 +1517,25 @@ def main(argv=None):
                     cfg = None
                     if kind == 'fs' and ck.rng.random() < 0.2:
                         g = seq[0][1]
-                        cfg = dict(pack_gc=bool(g), keep_old=ck.rng.random() < 0.5)
-                        seq = [[t, g] for t, _ in seq]
+                        cfg = dict(pack_gc=bool(g), keep_old=ck.rng.random() < 0.5, ctor=ck.rng.random() < 0.35)
+                        seq = [[x[0], g] for x in seq]
                         if not g:
                             via = None
+                    extra = {}
+                    z = ck.rng.random()
+                    if ops and kind in ('fs', 'hexfs', 'map', 'hexmap', 'mvccmap') and z < 0.12:
+                        # a pack that FAILS at a packer phase, then the same pack again
+                        T0, g0 = seq[0][0], seq[0][1]
+                        if kind in ('fs', 'hexfs'):
+                            seq = [[T0, g0, ck.rng.choice(FS_FAULTS)]] + seq
+                        elif g0:
+                            seq = [[T0, 1, 'refs%d' % ck.rng.choice([1, 2, 3])]] + seq
+                    elif ops and kind in ('fs', 'map') and z < 0.2:
+                        extra['buddy'] = True
+                    if kind in FSLIKE:
+                        extra['pre_index'] = ck.rng.choice([None, None, 'saved', 'none', 'stale'])
                     cases.append(dict(ops=ops, kind=kind, seq=seq, drop_index=ck.rng.random() < 0.5, tz=tz,
-                                      via=via, cfg=cfg))
+                                      via=via, cfg=cfg, **extra))
             if i % 5 == 1:
                 # FileStorage with blobs: a pack that fails at a packer phase, then a pack that succeeds
                 cases.append(gen_blob_case(ck.rng))
